@@ -605,7 +605,8 @@ def oracle_c04(trace):
             a = int(t[1], 16)
             ids = [i for i, v in last.items() if v == a]
             if ids and (not collects or space.get(ids[0]) in ("immortal", "code_space", "large_code_space", "ro_space", "vm_space")):
-                if r[0] != str(ids[0]):
+                # `unsupported`: the feature set has no VO bit (fs_plain): is_mmtk_object cannot be asked
+                if r[0] != str(ids[0]) and r[0] != "unsupported":
                     out.append((idx, "gc:immortal-died", f"id={ids[0]} at {a:#x}: {res}"))
     return out
 
@@ -721,7 +722,9 @@ class Gen:
         real = max(32, (self.info["refoff"] + 24 + 8 * nf + self.size_to_payload(size, nf) + 7) // 8 * 8)
         if sem == "Default" and real + align > self.info["maxnonlos"]:
             sem = "Los"
-        if sem == "NonMoving" and real + align > 16384:
+        # the non-moving space is an ImmixSpace: objects above half a block cannot be allocated there (mmtk panics
+        # `larger than MAX_IMMIX_OBJECT_SIZE`); feature `immix_smaller_block` (fs_small) has 8 KB blocks
+        if sem == "NonMoving" and real + align > (4096 if self.fs == "fs_small" else 16384):
             sem = "Los"
         if sem in ("Immortal", "Code", "ReadOnly", "LargeCode") or not self.info["collects"]:
             if self.immortal_bytes + real > self.heap // 8:
@@ -732,8 +735,8 @@ class Gen:
                 self.immortal_bytes += real + 4096
         if sem not in self.sems:
             sem = "Default" if real + align <= self.info["maxnonlos"] else "Los"
-        if sem in self.info["bump"] and bump_align_leak(real, align, offset):
-            align, offset = 8, 0       # KNOWN defect gc:bump-align-leak: kept out of the random stream
+        # (requests whose alignment padding did not fit their fresh block used to be kept out of the random stream:
+        # gc:bump-align-leak, repaired by a fix: commit)
         i = self.next_id
         self.next_id += 1
         self.nf[i], self.sem[i] = nf, sem
